@@ -1,9 +1,10 @@
 import Rtcm.Model.Text
+import Rtcm.Proofs.TextLaws
 /-!
 # C17  Text fields are preserved exactly or cut on a character boundary
 -/
 namespace Rtcm.C17
-open Rtcm.Text
+open Rtcm.Text Rtcm.CurLaws Rtcm.TextLaws
 
 /-- Converting a string to a descriptor field keeps its first N characters and stores each
 character with code 1..255 as that byte and every other character as 0xA4. -/
@@ -71,9 +72,162 @@ theorem text_1029_refused (cfg : Cfg) (bytes : List Nat) (c : Cur)
     text1029Encode cfg bytes c = .err .bufferOverflow := by
   simp [text1029Encode, h]
 
+/-- Converting to a UTF-8 text field always yields valid UTF-8 (`core::str::from_utf8` modelled by
+core Lean's verified `ByteArray.validateUTF8`): for every string of Unicode scalar values and
+every capacity. -/
+theorem arraystring_valid_utf8 (N : Nat) (s : List Nat)
+    (hs : ∀ c ∈ s, c < 0x110000 ∧ ¬ (0xD800 ≤ c ∧ c ≤ 0xDFFF)) :
+    validUtf8 (arrayStringFrom N s) = true := by
+  obtain ⟨k, _, he, _⟩ := arraystring_from_longest_prefix N s
+  rw [he]
+  exact validUtf8_flatMap _ (fun c hc => hs c (List.mem_of_mem_take hc))
+
+/-! ### Descriptor strings through a message (`df_88591_string_with_len!`) -/
+
+/-- with room in the buffer the descriptor encoder succeeds -/
+theorem str_encode_ok (cfg : Cfg) (cap lenBits : Nat) (h1 : 1 ≤ lenBits) (h8 : lenBits ≤ 8)
+    (hcap : cap < 2 ^ lenBits) (b : List Nat) (hb : ∀ x ∈ b, 1 ≤ x ∧ x ≤ 255)
+    (hlen : b.length ≤ cap) (c : Cur) (hg : Good c)
+    (hroom : c.off + lenBits + 8 * b.length ≤ 8 * c.data.length) :
+    ∃ c', strEncode cfg lenBits b c = .ok c' :=
+  strEncode_ok cfg lenBits h1 h8 b (fun x hx => by have := (hb x hx).2; omega) (by omega) c hg hroom
+
+/-- Through a message round trip a descriptor field comes back unchanged: stored bytes `b`
+(each 1..=255, at most `cap < 2^lenBits` of them) written at `c` are read back at `c.off` from the
+produced buffer, and the reader stops where the writer stopped; no bit outside the field
+changed. -/
+theorem str_roundtrip (cfg : Cfg) (cap lenBits : Nat) (h1 : 1 ≤ lenBits) (h8 : lenBits ≤ 8)
+    (hcap : cap < 2 ^ lenBits) (b : List Nat) (hb : ∀ x ∈ b, 1 ≤ x ∧ x ≤ 255)
+    (hlen : b.length ≤ cap) (c c' : Cur) (hg : Good c)
+    (h : strEncode cfg lenBits b c = .ok c') :
+    strDecode cfg cap lenBits { c' with off := c.off } = .ok (b, c') ∧
+    c'.off = c.off + lenBits + 8 * b.length ∧ Ext c c' := by
+  obtain ⟨e, o, r⟩ := strEncode_law cfg cap lenBits h1 h8 hcap b hb hlen c c' hg h
+  exact ⟨r c'.data rfl (AgreeOn.rfl' _ _ _), o, e⟩
+
+/-- the same, readable after any later writes: in ANY buffer of the same length that agrees with
+the produced one on the field's bits -/
+theorem str_roundtrip_stable (cfg : Cfg) (cap lenBits : Nat) (h1 : 1 ≤ lenBits) (h8 : lenBits ≤ 8)
+    (hcap : cap < 2 ^ lenBits) (b : List Nat) (hb : ∀ x ∈ b, 1 ≤ x ∧ x ≤ 255)
+    (hlen : b.length ≤ cap) (c c' : Cur) (hg : Good c)
+    (h : strEncode cfg lenBits b c = .ok c') (D : List Nat) (hD : D.length = c'.data.length)
+    (ha : AgreeOn D c'.data c.off c'.off) :
+    strDecode cfg cap lenBits ⟨D, c.off⟩ = .ok (b, ⟨D, c'.off⟩) :=
+  (strEncode_law cfg cap lenBits h1 h8 hcap b hb hlen c c' hg h).2.2 D hD ha
+
+/-- A frame whose length prefix exceeds the capacity decodes to an error (CapacityExceeded, which
+the message layer reports as Corrupt): stated on the bits of the buffer. -/
+theorem desc_len_above_cap_corrupt (cfg : Cfg) (cap lenBits : Nat) (h1 : 1 ≤ lenBits)
+    (h8 : lenBits ≤ 8) (c : Cur) (hroom : c.off + lenBits ≤ 8 * c.data.length)
+    (hbad : cap < Bits.fieldValue c.data c.off lenBits) :
+    strDecode cfg cap lenBits c = .err .capacityExceeded := by
+  unfold strDecode
+  rw [parseU_eq, parseF_at cfg ⟨.u, 8⟩ (by decide) (by decide) h1 h8 c.data c.off hroom]
+  have e : Bits.readValue ⟨.u, 8⟩ lenBits (Bits.fieldValue c.data c.off lenBits)
+      = Bits.fieldValue c.data c.off lenBits := rfl
+  simp only [e]
+  exact if_pos hbad
+
+/-! ### The 1029 UTF-8 text field through a message -/
+
+/-- Through a message round trip the 1029 text comes back unchanged: valid UTF-8 `b` (at most 255
+bytes and 127 characters, else the encoder refuses: `text_1029_refused`) written at `c`, with
+the cursor byte-aligned after the 7-bit character count and the 8-bit byte count (as in message
+1029, where the field starts at body bit 73), is read back at `c.off` from the produced buffer,
+and the reader stops where the writer stopped. -/
+theorem text_1029_roundtrip (cfg : Cfg) (b : List Nat) (hb : ∀ x ∈ b, x < 256)
+    (hutf : validUtf8 b = true) (c c' : Cur) (hg : Good c) (hal : (c.off + 15) % 8 = 0)
+    (h : text1029Encode cfg b c = .ok c') :
+    text1029Decode cfg { c' with off := c.off } = .ok (b, c') ∧
+    c'.off = c.off + 15 + 8 * b.length ∧ Ext c c' := by
+  obtain ⟨e, o, r⟩ := text1029_law cfg b hb hutf c c' hg hal h
+  exact ⟨r c'.data rfl e.good (AgreeOn.rfl' _ _ _), o, e⟩
+
+/-- the same, readable after any later writes -/
+theorem text_1029_roundtrip_stable (cfg : Cfg) (b : List Nat) (hb : ∀ x ∈ b, x < 256)
+    (hutf : validUtf8 b = true) (c c' : Cur) (hg : Good c) (hal : (c.off + 15) % 8 = 0)
+    (h : text1029Encode cfg b c = .ok c') (D : List Nat) (hD : D.length = c'.data.length)
+    (hDg : ∀ d ∈ D, d < 256) (ha : AgreeOn D c'.data c.off c'.off) :
+    text1029Decode cfg ⟨D, c.off⟩ = .ok (b, ⟨D, c'.off⟩) :=
+  (text1029_law cfg b hb hutf c c' hg hal h).2.2 D hD hDg ha
+
+/-- with room in the buffer the text encoder succeeds -/
+theorem text_1029_encode_ok (cfg : Cfg) (b : List Nat) (hb : ∀ x ∈ b, x < 256)
+    (hl : b.length ≤ 255) (hc : charCount b ≤ 127) (c : Cur) (hg : Good c)
+    (hroom : c.off + 15 + 8 * b.length ≤ 8 * c.data.length) :
+    ∃ c', text1029Encode cfg b c = .ok c' := by
+  unfold text1029Encode
+  dsimp only
+  rw [if_neg (by omega)]
+  rcases putF_cases cfg ⟨.u, 8⟩ (by decide) (by decide) (len := 7) (by decide) (by decide) hg
+    (show charCount b < 2 ^ 8 by show _ < 256; omega) with ⟨_, c1, h1, o1, e1, _⟩ | ⟨hno, _⟩
+  · rw [putU_eq, h1]
+    simp only
+    rcases putF_cases cfg ⟨.u, 8⟩ (by decide) (by decide) (len := 8) (by decide) (by decide)
+      e1.good (show b.length < 2 ^ 8 by show _ < 256; omega) with ⟨_, c2, h2, o2, e2, _⟩ | ⟨hno, _⟩
+    · rw [putU_eq, h2]
+      simp only
+      exact putBytes_ok cfg b c2 e2.good hb (by rw [o2, o1, e2.len, e1.len]; omega)
+    · rw [o1, e1.len] at hno; omega
+  · omega
+
+/-- A frame whose announced text bytes are not valid UTF-8 decodes to an error
+(InvalidUtf8String, which the message layer reports as Corrupt): `len` is the 8-bit byte count on
+the wire, the bytes are those from byte index `(c.off + 15) / 8`. -/
+theorem invalid_utf8_corrupt (cfg : Cfg) (c : Cur) (hroom : c.off + 15 ≤ 8 * c.data.length)
+    (hlen : Bits.fieldValue c.data (c.off + 7) 8 ≤ (c.data.drop ((c.off + 15) / 8)).length)
+    (hbad : validUtf8 ((c.data.drop ((c.off + 15) / 8)).take
+      (Bits.fieldValue c.data (c.off + 7) 8)) = false) :
+    text1029Decode cfg c = .err .invalidUtf8String := by
+  unfold text1029Decode
+  rw [parseU_eq, parseF_at cfg ⟨.u, 8⟩ (by decide) (by decide) (len := 7) (by decide) (by decide)
+    c.data c.off (by omega)]
+  simp only
+  rw [parseU_eq, parseF_at cfg ⟨.u, 8⟩ (by decide) (by decide) (len := 8) (by decide) (by decide)
+    c.data (c.off + 7) (by omega)]
+  have e : Bits.readValue ⟨.u, 8⟩ 8 (Bits.fieldValue c.data (c.off + 7) 8)
+      = Bits.fieldValue c.data (c.off + 7) 8 := rfl
+  have e2 : c.off + 7 + 8 = c.off + 15 := by omega
+  simp only [e, e2]
+  rw [if_neg (by omega), hbad]
+  simp
+
 /-! Non-vacuity -/
 example : df88591From 3 [0x41, 0, 0x20AC, 0xE9] = [0x41, 0xA4, 0xA4] := by decide
 example : arrayStringFrom 4 [0x41, 0xE9, 0x65E5] = [0x41, 0xC3, 0xA9] := by decide
 example : validUtf8 (arrayStringFrom 4 [0x41, 0xE9, 0x65E5]) = true := by decide +kernel
+
+/-- `arraystring_valid_utf8` applied: a 3-byte character that does not fit is cut whole -/
+example : validUtf8 (arrayStringFrom 4 [0x41, 0xE9, 0x65E5]) = true :=
+  arraystring_valid_utf8 4 _ (by decide)
+/-- an astral character (U+1F600) is a scalar value; a surrogate is not in the domain -/
+example : validUtf8 (arrayStringFrom 255 [0x1F600, 0x41]) = true :=
+  arraystring_valid_utf8 255 _ (by decide)
+
+/-- descriptor "A\u{e9}" in a 5-bit length field at bit offset 3: the encoder succeeds (both
+profiles) and the round-trip theorem applies -/
+example : ∀ chk : Bool, (match strEncode ⟨chk⟩ 5 [0x41, 0xE9] ⟨List.replicate 4 0, 3⟩ with
+    | .ok c' => c'.data == [2, 65, 233, 0] && c'.off == 24
+    | _ => false) = true := by decide
+example (cfg : Cfg) (c' : Cur) (h : strEncode cfg 5 [0x41, 0xE9] ⟨List.replicate 4 0, 3⟩ = .ok c') :
+    strDecode cfg 31 5 { c' with off := 3 } = .ok ([0x41, 0xE9], c') :=
+  (str_roundtrip cfg 31 5 (by decide) (by decide) (by decide) _ (by decide) (by decide) _ c'
+    (by unfold Good; decide) h).1
+/-- a length prefix of 9 against capacity 7 -/
+example (cfg : Cfg) : strDecode cfg 7 4 ⟨[0x90, 0, 0, 0, 0, 0, 0, 0, 0, 0], 0⟩ = .err .capacityExceeded :=
+  desc_len_above_cap_corrupt cfg 7 4 (by decide) (by decide) _ (by decide) (by decide)
+
+/-- 1029 text "A\u{e9}" (3 bytes, 2 characters) with the field starting at bit 1 -/
+example : ∀ chk : Bool, (match text1029Encode ⟨chk⟩ [0x41, 0xC3, 0xA9] ⟨List.replicate 5 0, 1⟩ with
+    | .ok c' => c'.data == [2, 3, 0x41, 0xC3, 0xA9] && c'.off == 40
+    | _ => false) = true := by decide
+example (cfg : Cfg) (c' : Cur)
+    (h : text1029Encode cfg [0x41, 0xC3, 0xA9] ⟨List.replicate 5 0, 1⟩ = .ok c') :
+    text1029Decode cfg { c' with off := 1 } = .ok ([0x41, 0xC3, 0xA9], c') :=
+  (text_1029_roundtrip cfg _ (by decide) (by decide +kernel) _ c' (by unfold Good; decide)
+    (by decide) h).1
+/-- a lone continuation byte is refused -/
+example (cfg : Cfg) : text1029Decode cfg ⟨[2, 2, 0x41, 0xA9], 1⟩ = .err .invalidUtf8String :=
+  invalid_utf8_corrupt cfg _ (by decide) (by decide +kernel) (by decide +kernel)
 
 end Rtcm.C17
